@@ -128,6 +128,7 @@ def main():
             vlib.require(len(lines) > 3000, "driver produced too few events for %s" % z)
             per_zone[z] = lines
         batches = [(z, per_zone[z]) for z in ZONES] if thorough else [("all zones", sum((per_zone[z] for z in ZONES), []))]
+        flagged_lines = set()
         stats = {"events": 0, "twin": 0, "several_layouts_accept": 0, "epoch": 0, "order_drift": 0, "axiom": 0}
         bgroups = {}
         for label, lines in batches:
@@ -146,6 +147,7 @@ def main():
                     bgroups.setdefault(json.dumps(d, sort_keys=True), []).append((d, e, None))
             for m in t.mismatches:
                 e = json.loads(lines[m["line"] - 1])
+                flagged_lines.add(lines[m["line"] - 1])
                 if m["cls"] == "order":
                     stats["order_drift"] += 1
                     run.drift.append({"cls": "order", "text": e["text"], "tz": e["tz"], "got": e["got"], "acc": e["acc"]})
@@ -172,7 +174,7 @@ def main():
                      "driver did not reach DST overlaps / ambiguous texts / epoch texts")
 
         # negative control B: corrupted results must be flagged by the trace specification
-        clean = [x for x in all_lines if not json.loads(x).get("panic")]
+        clean = [x for x in all_lines if x not in flagged_lines and '"panic"' not in x]
         rng = random.Random(2000 + run.seed)
         picks = rng.sample(range(len(clean)), 6)
         neg, want = [], []
